@@ -260,6 +260,22 @@ def run(ck):
                 evs.append(run_one(env, cls, sysd, [a, b], "boxed", "linear", pol, ck.rng))
                 if a[1]["signed"] == b[1]["signed"]:
                     evs.append(run_one(env, cls, sysd, [a, b], "pareto", "linear", pol, ck.rng))
+    # Pareto fronts of signed / unsigned bit-vector goal pairs whose values cross the sign boundary, from every kind
+    # of starting candidate (the "no worse than" constraints of the Pareto loop are used by no other mode)
+    for sysd in systems(env):
+        t = sysd["terms"]
+        if not t[0].get_type().is_bv_type():
+            continue
+        same = [z for z in t if z.get_type() == t[0].get_type()]
+        if len(same) < 2:
+            continue
+        for sg in (True, False):
+            mk = {"max": lambda term, sg=sg: (lambda: MaximizationGoal(term, sg), {"kind": "max", "terms": [term], "signed": sg, "soft": []}),
+                  "min": lambda term, sg=sg: (lambda: MinimizationGoal(term, sg), {"kind": "min", "terms": [term], "signed": sg, "soft": []})}
+            for ka, kb in (("max", "max"), ("max", "min"), ("min", "max"), ("min", "min")):
+                for cls in (SUABrute, IncBrute):
+                    for pol in (("worst", "first", "last") if quick else policies):
+                        evs.append(run_one(env, cls, sysd, [mk[ka](same[0]), mk[kb](same[1])], "pareto", "linear", pol, ck.rng))
     evs = [e for e in evs if e is not None]
     for k, e in enumerate(evs):
         e["id"] = k
